@@ -1,4 +1,5 @@
 import BeyondVerif.Lemmas.Interp
+import BeyondVerif.Lemmas.InterpFormula
 import Mathlib.Tactic.FieldSimp
 import Mathlib.Tactic.Ring
 import Mathlib.Tactic.IntervalCases
@@ -25,7 +26,11 @@ Clauses of the property and where they are:
   `interpolate_uses_current_coordinates` (for every history of interpolations and frame/form changes the
   coordinates are interpolated from the current points; this was false before /repo commit 0a4f7b2, see
   Witness/C09.lean for the history)
-* "within centimetres on a smooth orbit" is an error bound for a function class: oracle only.
+* the Lagrange formula itself is translated from the numpy source (`lagrangeFormula`, Generated/InterpLagR.lean) and
+  proved equal to the textbook formula `lagrangeEval` in Lemmas/InterpFormula.lean (`lagrangeFormula_eq`)
+* `_prev_idx` and the linear method at nodes, the last one included ... `prevIdx_at_node`, `interp_linear_last_node`
+* "within centimetres on a smooth orbit" .. Props/C09Bound.lean (`interp_lagrange_error_bound`, `smooth_orbit_within_cm_partial`)
+* Ephem as a state machine with object identity, operation histories .. Props/C09Ephem.lean
 -/
 namespace BeyondVerif.C09
 open BeyondVerif.R BeyondVerif.NumReal
@@ -117,8 +122,9 @@ theorem interp_lagrange_window (xs : List ℝ) (ys : List (List ℝ)) (k : ℕ) 
   rw [if_neg (by simp), if_neg (by simp [hinc])]
   unfold interpCall
   simp only [hx0', hxl']
-  rw [if_neg (by rw [← e0, ← el]; exact not_not.mpr ⟨hx0, hxl⟩)]
-  simp only [lagrangeCall, hp, hys, ← hwdef, hxs, hysl, lx, ly]
+  rw [if_neg (by rw [callRefuses_iff, ← e0, ← el]; exact not_not.mpr ⟨hx0, hxl⟩)]
+  simp only [lagrangeCall, hp, hys, ← hwdef, hxs, hysl, ly, lagrangeRefuses_self,
+    lagrangeFormula_eq k _ _ x (by omega) lx ly]
   simp
 
 /-! ## Lagrange: nodes and polynomials -/
@@ -240,8 +246,8 @@ theorem interp_linear_eq (xs : List ℝ) (ys : List (List ℝ)) (o : Option Int)
   rw [if_neg (by simp), if_neg (by simp [hinc])]
   unfold interpCall
   simp only [hx0', hxl']
-  rw [if_neg (by rw [← e0, ← el]; exact not_not.mpr ⟨hx0, hxl⟩)]
-  simp only [linearCall, hp, hxs, hysl]
+  rw [if_neg (by rw [callRefuses_iff, ← e0, ← el]; exact not_not.mpr ⟨hx0, hxl⟩)]
+  simp only [linearCall, hp, linearSlice_eq, hxs, hysl]
 
 theorem linRow_right (x0 x1 : ℝ) (h : x0 ≠ x1) : ∀ (y0 y1 : List ℝ), y0.length = y1.length → linRow x1 x0 x1 y0 y1 = y1
   | [], [], _ => rfl
@@ -249,7 +255,7 @@ theorem linRow_right (x0 x1 : ℝ) (h : x0 ≠ x1) : ∀ (y0 y1 : List ℝ), y0.
   | _ :: _, [], h' => by simp at h'
   | a :: y0, b :: y1, h' => by
     have hne : x1 - x0 ≠ 0 := sub_ne_zero.mpr (Ne.symm h)
-    simp only [linRow, linRow_right x0 x1 h y0 y1 (by simpa using h')]
+    simp only [linRow, linearFormula_eq, linRow_right x0 x1 h y0 y1 (by simpa using h')]
     congr 1
     field_simp
     ring
@@ -259,7 +265,7 @@ theorem linRow_left (x0 x1 : ℝ) : ∀ (y0 y1 : List ℝ), y0.length = y1.lengt
   | [], _ :: _, h' => by simp at h'
   | _ :: _, [], h' => by simp at h'
   | a :: y0, b :: y1, h' => by
-    simp only [linRow, linRow_left x0 x1 y0 y1 (by simpa using h')]
+    simp only [linRow, linearFormula_eq, linRow_left x0 x1 y0 y1 (by simpa using h')]
     simp
 
 /-- **Node exactness of the linear method** (over ℝ; in doubles the value is within rounding of the node) -/
@@ -309,7 +315,7 @@ theorem interp_linear_reproduces_pwl (xs : List ℝ) (f : ℝ → ℝ) (o : Opti
   have e2 : (xs.map (fun t => [f t])).getD (p + 1) [] = [f (xs.getD (p + 1) 0)] := by
     simp [List.getD_eq_getElem?_getD, List.getElem?_map, List.getElem?_eq_getElem hp1]
   rw [e1, e2]
-  simp only [linRow]
+  simp only [linRow, linearFormula_eq]
   rw [hab _ le_rfl (le_of_lt hlt), hab _ (le_of_lt hlt) le_rfl, hab x hb0 hb1]
   have hne : xs.getD (p + 1) 0 - xs.getD p 0 ≠ 0 := sub_ne_zero.mpr (ne_of_gt hlt)
   congr 2
@@ -335,7 +341,7 @@ theorem outside_rejected (m : Method) (o : Option Int) (xs : List ℝ) (ys : Lis
     have el := getLast?_eq_getD xs xl hxl'
     unfold interpCall
     simp only [hx0', hxl']
-    rw [if_pos (by rw [← e0, ← el]; rintro ⟨ha, hb⟩; rcases hout with h | h <;> linarith)]
+    rw [if_pos (by rw [callRefuses_iff, ← e0, ← el]; rintro ⟨ha, hb⟩; rcases hout with h | h <;> linarith)]
     exact ⟨_, rfl⟩
   · exact ⟨_, rfl⟩
 
@@ -360,13 +366,13 @@ theorem outside_value_error (m : Method) (o : Option Int) (xs : List ℝ) (ys : 
   rw [if_neg hinit, if_neg (by simp [hinc])]
   unfold interpCall
   simp only [hx0', hxl']
-  rw [if_pos (by rw [← e0, ← el]; rintro ⟨ha, hb⟩; rcases hout with h | h <;> linarith)]
+  rw [if_pos (by rw [callRefuses_iff, ← e0, ← el]; rintro ⟨ha, hb⟩; rcases hout with h | h <;> linarith)]
 
 theorem lagrangeCall_short_value (xs : List ℝ) (ys : List (List ℝ)) (k : Int) (x : ℝ) (hshort : (ys.length : Int) < k)
     (p : ℕ) (hp : prevIdx xs x = some p) : lagrangeCall k xs ys x = .error .value := by
   simp only [lagrangeCall, hp]
   have := pySlice_length_le ys (windowRaw p k ys.length).1 (windowRaw p k ys.length).2
-  rw [if_pos (by omega)]
+  rw [if_pos (by rw [lagrangeRefuses_iff]; omega)]
 
 theorem lagrangeCall_short (xs : List ℝ) (ys : List (List ℝ)) (k : Int) (x : ℝ) (hshort : (ys.length : Int) < k) :
     ∃ e, lagrangeCall k xs ys x = .error e := by
@@ -385,9 +391,9 @@ theorem too_short_rejected (xs : List ℝ) (ys : List (List ℝ)) (k : Int) (x :
     split
     · rename_i x0 xl _ _
       by_cases hr : (x0 ≤ x ∧ x ≤ xl)
-      · rw [if_neg (not_not.mpr hr)]
+      · rw [if_neg (by rw [callRefuses_iff]; exact not_not.mpr hr)]
         exact lagrangeCall_short xs ys k x hshort
-      · rw [if_pos hr]; exact ⟨_, rfl⟩
+      · rw [if_pos (by rw [callRefuses_iff]; exact hr)]; exact ⟨_, rfl⟩
     · exact ⟨_, rfl⟩
   · rw [if_pos hinc]; exact ⟨_, rfl⟩
 
@@ -409,9 +415,9 @@ theorem too_short_value_error (xs : List ℝ) (ys : List (List ℝ)) (k : Int) (
   unfold interpCall
   simp only [hx0', hxl']
   by_cases hr : (x0 ≤ x ∧ x ≤ xl)
-  · rw [if_neg (not_not.mpr hr)]
+  · rw [if_neg (by rw [callRefuses_iff]; exact not_not.mpr hr)]
     exact lagrangeCall_short_value xs ys k x hshort p hp
-  · rw [if_pos hr]
+  · rw [if_pos (by rw [callRefuses_iff]; exact hr)]
 
 /-! ## Ephem -/
 
@@ -525,6 +531,51 @@ theorem interpolate_uses_current_coordinates (pts : List Pt) (m : Option Method)
       ((ops.foldl ephStep (Eph.new pts m o)).pts.map (·.mjd))
       ((ops.foldl ephStep (Eph.new pts m o)).pts.map (·.coord)) date = .ok pt.coord :=
   interpolate_fresh _ date (fresh_reachable pts m o ops) pt h
+
+
+/-! ## `_prev_idx` and the linear method at tabulated abscissae, the LAST one included -/
+
+/-- **`_prev_idx` at a tabulated abscissa** returns the node before it (node 0 for the first abscissa): never the
+last row — so the two-row slice `[prev_idx : prev_idx + 2]` of `_linear` is complete at the last node as well. -/
+theorem prevIdx_at_node (xs : List ℝ) (j : ℕ) (hinc : increasing xs = true) (h2 : 2 ≤ xs.length) (hj : j < xs.length) :
+    prevIdx xs (xs.getD j 0) = some (j - 1) := by
+  have hpw := increasing_pairwise xs hinc
+  have mono : ∀ i j, i ≤ j → j < xs.length → xs.getD i 0 ≤ xs.getD j 0 := by
+    intro i j hij hj
+    rcases Nat.lt_or_eq_of_le hij with h | h
+    · exact le_of_lt (getD_lt_of_pairwise xs hpw i j h hj)
+    · rw [h]
+  obtain ⟨p, hp, hp1, hb0, hb1, hl⟩ :=
+    prevIdx_bracket xs (xs.getD j 0) h2 (mono 0 j (by omega) hj) (mono j _ (by omega) (by omega))
+  rw [hp]
+  congr 1
+  have h1 : j ≤ p + 1 := by
+    by_contra hc
+    have := getD_lt_of_pairwise xs hpw (p + 1) j (by omega) hj
+    linarith
+  rcases hl with hl | hl
+  · omega
+  · have : p < j := by
+      by_contra hc
+      have := mono j p (by omega) (by omega)
+      linarith
+    omega
+
+/-- at the last abscissa `_prev_idx` is `len - 2` -/
+theorem prevIdx_last_node (xs : List ℝ) (hinc : increasing xs = true) (h2 : 2 ≤ xs.length) :
+    prevIdx xs (xs.getD (xs.length - 1) 0) = some (xs.length - 2) := by
+  rw [prevIdx_at_node xs (xs.length - 1) hinc h2 (by omega)]
+  congr 1
+
+/-- **The linear method returns the last point at the last date** (not an error) -/
+theorem interp_linear_last_node (xs : List ℝ) (ys : List (List ℝ)) (o : Option Int) (d : ℕ)
+    (hinc : increasing xs = true) (h2 : 2 ≤ xs.length) (hys : ys.length = xs.length)
+    (hrect : ∀ row ∈ ys, row.length = d) :
+    interp .linear o xs ys (xs.getD (xs.length - 1) 0) = .ok (ys.getD (xs.length - 1) []) :=
+  interp_linear_node_exact xs ys o d (xs.length - 1) hinc h2 hys hrect (by omega)
+
+/-- a table of three abscissae: at the last one `_prev_idx` is 1 (kernel-evaluated through the theorem's hypotheses) -/
+example : increasing [(0 : ℝ), 1, 3] = true ∧ 2 ≤ [(0 : ℝ), 1, 3].length := by simp [increasing]
 
 /-! ## non-vacuity: the hypotheses are met by concrete tables -/
 
